@@ -122,9 +122,9 @@ Proof.
 Qed.
 
 (* ---------- observations: what a lookup of key k sees (key, value, refcount, notifier list) ---------- *)
-Definition core := (option key * option val * nat * list notifier)%type.
-Definition core_of (i : ninfo) : core := (n_key i, n_val i, n_rc i, n_nots i).
-Definition blank : core := (None, None, 0, []).
+Definition core := (option key * option val * nat * list notifier * bool)%type.
+Definition core_of (i : ninfo) : core := (n_key i, n_val i, n_rc i, n_nots i, n_removed i).
+Definition blank : core := (None, None, 0, [], false).
 
 Fixpoint obs_t (n : tnode) (k : key) {struct n} : core :=
   match n with
@@ -150,15 +150,15 @@ Proof. induction f; simpl; intros; auto. destruct j; auto. Qed.
 Lemma fget_some_lt : forall f j t, fget f j = Some t -> j < flen f.
 Proof. induction f; simpl; intros; [discriminate|]. destruct j; [lia|]. apply IHf in H. lia. Qed.
 
-Lemma ins_f_fget : forall f j k nid,
-  ins_f f j k nid = match fget f j with
-                    | Some t => let '(t', p, nid') := ins_t t k false nid in Some (fset f j (Some t'), p, nid')
+Lemma ins_f_fget : forall fx f j k nid,
+  ins_f fx f j k nid = match fget f j with
+                    | Some t => let '(t', p, nid') := ins_t fx t k false nid in Some (fset f j (Some t'), p, nid')
                     | None => None
                     end.
 Proof.
   induction f; simpl; intros; auto. destruct j; simpl.
   - destruct o; auto.
-  - rewrite IHf. destruct (fget f j); auto. destruct (ins_t t k false nid) as [[t' p] nid']. reflexivity.
+  - rewrite IHf. destruct (fget f j); auto. destruct (ins_t fx t k false nid) as [[t' p] nid']. reflexivity.
 Qed.
 
 Lemma size_fget : forall f j t, fget f j = Some t -> size_t t <= size_f f.
@@ -200,7 +200,8 @@ Qed.
 
 (* node-local well-formedness: a value-less node has no key and no reference; segments hold no 0 byte *)
 Definition wfi (i : ninfo) (seg : list byte) : Prop :=
-  (n_val i = None -> n_key i = None /\ n_rc i = 0) /\ (n_key i = None -> n_val i = None) /\ Forall (fun b => b <> 0) seg.
+  (n_val i = None -> n_key i = None /\ n_rc i = 0 /\ n_removed i = false) /\ (n_key i = None -> n_val i = None) /\
+  Forall (fun b => b <> 0) seg.
 
 Lemma obs_blank_node : forall i seg q, core_of i = blank -> obs_t (TN i seg FNil) q = blank.
 Proof.
@@ -211,12 +212,12 @@ Lemma core_fresh : forall id, core_of (fresh_info id) = blank.
 Proof. reflexivity. Qed.
 
 (* a node cut in two at segment position |m| (trie_node_split) plus one extra all-blank child looks the same *)
-Lemma obs_split_form : forall i i' m s rest f jx x q,
-  core_of i' = core_of i -> jx <> c2i s -> (forall q', obs_t x q' = blank) ->
-  obs_t (TN (fresh_info (n_id i)) m (new_child (new_child FNil (c2i s) (TN i' rest f)) jx x)) q
+Lemma obs_split_form : forall i iu i' m s rest f jx x q,
+  core_of iu = blank -> core_of i' = core_of i -> jx <> c2i s -> (forall q', obs_t x q' = blank) ->
+  obs_t (TN iu m (new_child (new_child FNil (c2i s) (TN i' rest f)) jx x)) q
   = obs_t (TN i (m ++ s :: rest) f) q.
 Proof.
-  intros. cbn [obs_t].
+  intros i iu i' m s rest f jx x q Hu H H0 H1. cbn [obs_t].
   destruct (strip m q 0) eqn:S.
   - apply strip_keyend in S. destruct S as [r [S1 S2]]. subst m. simpl in S2. subst sc.
     rewrite <- app_assoc. rewrite strip_pre. simpl. rewrite !app_length. simpl.
@@ -269,11 +270,15 @@ Proof. intros. apply Forall_app in H. tauto. Qed.
 Lemma Forall_app_r : forall (A : Type) (P : A -> Prop) a b, Forall P (a ++ b) -> Forall P b.
 Proof. intros. apply Forall_app in H. tauto. Qed.
 
-Lemma ins_ok : forall sz n, size_t n <= sz -> forall k hdr nid n' p nid',
-  all_t wfi n -> Forall (fun b => b <> 0) k -> ins_t n k hdr nid = (n', p, nid') ->
+Lemma wfi_lower : forall (b : bool) nid i seg rest, wfi i seg -> Forall (fun x => x <> 0) rest ->
+  wfi (if b then i else set_id nid i) rest.
+Proof. intros b nid i seg rest [A [B C]] F. destruct b; unfold wfi; simpl; auto. Qed.
+
+Lemma ins_ok : forall fx sz n, size_t n <= sz -> forall k hdr nid n' p nid',
+  all_t wfi n -> Forall (fun b => b <> 0) k -> ins_t fx n k hdr nid = (n', p, nid') ->
   (forall q, obs_t n' q = obs_t n q) /\ look_t n' k true = Some p /\ all_t wfi n'.
 Proof.
-  induction sz; intros n Hsz k hdr nid n' p nid' Hwf Hk H.
+  intro fx. induction sz; intros n Hsz k hdr nid n' p nid' Hwf Hk H.
   { destruct n; simpl in Hsz; lia. }
   destruct n as [i seg f]. cbn [ins_t] in H. unfold key, byte in *.
   cbn [all_t] in Hwf. destruct Hwf as [[Hv [Hkn Hseg]] Hf].
@@ -289,6 +294,7 @@ Proof.
       { apply Forall_app_r in Hseg. inversion Hseg; auto. }
       split; [|split].
       * intro q. apply obs_split_form; auto.
+        -- destruct (f_split fx); reflexivity.
         -- intro X. apply c2i_inj in X. congruence.
         -- intro q'. apply obs_blank_node. reflexivity.
       * cbn [look_t]. rewrite strip_self. simpl. rewrite Nat.ltb_irrefl. reflexivity.
@@ -296,7 +302,7 @@ Proof.
         -- apply wfi_fresh. eapply Forall_app_l; eauto.
         -- apply all_f_new_child.
            ++ apply all_f_new_child; [exact I|]. cbn [all_t]. split; auto.
-              unfold wfi. simpl. repeat split; auto; try tauto.
+              eapply wfi_lower; [unfold wfi; split; [exact Hv|split; [exact Hkn|exact Hseg]]|].
               apply Forall_app_r in Hseg. inversion Hseg; auto.
            ++ cbn [all_t]. split; [apply wfi_fresh; constructor | exact I].
     + inversion H; subst; clear H. split; [|split]; auto.
@@ -309,6 +315,7 @@ Proof.
     inversion H; subst; clear H.
     split; [|split].
     + intro q. apply obs_split_form; auto.
+      * destruct (f_split fx); reflexivity.
       * intro X. apply c2i_inj in X. congruence.
       * intro q'. apply obs_blank_node. reflexivity.
     + cbn [look_t]. rewrite strip_self_more. rewrite look_f_fget, new_child_same.
@@ -317,7 +324,7 @@ Proof.
       * apply wfi_fresh. eapply Forall_app_l; eauto.
       * apply all_f_new_child.
         -- apply all_f_new_child; [exact I|]. cbn [all_t]. split; auto.
-           unfold wfi. simpl. repeat split; auto; try tauto.
+           eapply wfi_lower; [unfold wfi; split; [exact Hv|split; [exact Hkn|exact Hseg]]|].
            apply Forall_app_r in Hseg. inversion Hseg; auto.
         -- cbn [all_t]. split; [|exact I]. apply wfi_fresh.
            apply Forall_app_r in Hk. inversion Hk; auto.
@@ -326,7 +333,7 @@ Proof.
     assert (Hk' : Forall (fun b => b <> 0) k').
     { subst k. apply Forall_app_r in Hk. inversion Hk; auto. }
     destruct (fget f (c2i c)) as [t|] eqn:G.
-    + destruct (ins_t t k' false nid) as [[t' p0] nid0] eqn:I.
+    + destruct (ins_t fx t k' false nid) as [[t' p0] nid0] eqn:I.
       inversion H; subst n' p nid'; clear H.
       assert (Hst : size_t t <= sz).
       { apply size_fget in G. simpl in Hsz. lia. }
@@ -363,7 +370,7 @@ Proof.
         inversion H; subst n' p nid'; clear H.
         apply flen_zero in FL. subst f.
         assert (Hb : core_of i = blank).
-        { unfold core_of, blank. destruct (Hv eq_refl) as [X Y]. rewrite X, V, Y, N. reflexivity. }
+        { unfold core_of, blank. destruct (Hv eq_refl) as [X [Y Z]]. rewrite X, V, Y, N, Z. reflexivity. }
         split; [|split].
         -- intro q. rewrite !obs_blank_node; auto.
         -- cbn [look_t]. rewrite Sk. rewrite strip_self. simpl. rewrite Nat.ltb_irrefl. reflexivity.
@@ -474,7 +481,7 @@ Proof.
   split. { destruct hdr; auto; discriminate. }
   intro q. cbn [obs_t]. destruct (strip seg q 0); auto.
   - destruct (sc <? length seg); auto. unfold core_of, blank.
-    pose proof (Hk eq_refl) as V. destruct (Hv V) as [_ R]. rewrite K, V, R, N. reflexivity.
+    pose proof (Hk eq_refl) as V. destruct (Hv V) as [_ [R R2]]. rewrite K, V, R, N, R2. reflexivity.
   - rewrite obs_f_fget, fall_none_fget; auto.
 Qed.
 
